@@ -65,7 +65,7 @@ KindOK(kv) == \A i \in DOMAIN kv : kv[i] = "X" => (RunEnd(kv, i) - RunStart(kv, 
 Kinds(n, ks) == {kv \in [1..n -> ks] : KindOK(kv)}
 RnOf(kv) == TLCEval([i \in DOMAIN kv |-> IF kv[i] = "X" THEN (IF (i - RunStart(kv, i)) % 2 = 0 THEN "X1" ELSE "X2") ELSE kv[i]])
 FiOf(kv) == TLCEval([i \in DOMAIN kv |-> IF kv[i] = "X" THEN "XX" ELSE ""])
-MkInpF(FFs, ff, n, start, kv, E, sel) == [id |-> 0, useApps |-> FALSE, apps |-> <<>>, ff |-> ff, F |-> FFs[ff], n |-> n, start |-> start, rn |-> RnOf(kv), fi |-> FiOf(kv), edges |-> SetToSeq(E), sel |-> sel]
+MkInpF(FFs, ff, n, start, kv, E, sel) == [id |-> 0, hist |-> <<>>, useApps |-> FALSE, apps |-> <<>>, ff |-> ff, F |-> FFs[ff], n |-> n, start |-> start, rn |-> RnOf(kv), fi |-> FiOf(kv), edges |-> SetToSeq(E), sel |-> sel]
 \* (kinds, edges) shapes inside the domain; the domain conditions do not depend on block sizes, so force field 1 decides them
 Shapes(FFs, n, ks) == {s \in Kinds(n, ks) \X ConnGraphs(n) : DomOK(MkInpF(FFs, 1, n, 1, s[1], s[2], <<>>))}
 GraphInputs(FFs, ffs, ns, starts, ks) ==
@@ -129,7 +129,7 @@ InputsM(ffs, ns, starts) == UNION {UNION {InputsMff(ff, n, starts) : ff \in ffs}
 (* ---------------- instance E: mixed exclusion distances (C14) ---------------- *)
 \* bonds along the chain c1-c2-c3 (variant 2: the last one a constraint), optional explicit exclusion c1 c3
 BlockE(name, ty, n, e, v) ==
-  LET ats == IF name = "A" THEN AtomsA(n) ELSE AtomsB(n)
+  LET ats == IF name = "A" THEN AtomsA(n) ELSE IF name = "C" THEN [a \in 1..n |-> [AtomsB(n)[a] EXCEPT !.ty = "TC"]] ELSE AtomsB(n)
       c == Cand(n, IF name = "A" THEN "3" ELSE "4")
       S == IF n = 1 THEN {} ELSE IF n = 2 THEN (IF v = 2 THEN {2} ELSE {1}) ELSE (IF v = 1 THEN {1, 2} ELSE IF v = 2 THEN {1, 4} ELSE {1, 2, 5})
   IN [MkBlock(name, e, ats, PickV(c, S)) EXCEPT !.atoms = TLCEval([a \in 1..n |-> [ats[a] EXCEPT !.rn = name]])]
